@@ -42,4 +42,20 @@ CANARIES = [
          edits=[(CM, '        self.connections.len()\n    }\n\n    fn get', '        self.connections.len().saturating_sub(1)\n    }\n\n    fn get')]),
     dict(id='ap-contains-negated', unit=U, what='contains negated', expect=['ActivePeersInner::contains::is_view_membership'],
          edits=[(CM, '        self.connections.contains_key(peer_id)\n', '        !self.connections.contains_key(peer_id)\n')]),
+    dict(id='ap-handler-tail-remove-by-peer', unit=U, what='handler exit removes whatever connection the peer has now', expect=['InboundRequestHandler::start::tail::removes_own_entry_only'],
+         edits=[('crates/anemo/src/network/request_handler.rs', """        self.active_peers.remove_with_stable_id(
+            self.connection.peer_id(),
+            self.connection.stable_id(),
+            crate::types::DisconnectReason::from_quinn_error(&close_reason),
+        );""", """        self.active_peers.remove(
+            &self.connection.peer_id(),
+            crate::types::DisconnectReason::from_quinn_error(&close_reason),
+        );""")]),
+    dict(id='ap-wrapper-rmsid-to-remove', unit=U, what='locked wrapper of remove_with_stable_id delegates to remove', expect=['ActivePeers::remove_with_stable_id::delegates'],
+         edits=[(CM, """        self.inner_mut()
+            .remove_with_stable_id(peer_id, stable_id, reason)""", """        self.inner_mut().remove(&peer_id, reason)""")]),
+    dict(id='ap-quinn-reason-swapped', unit=U, what='TimedOut reported as Reset', expect=['DisconnectReason::from_quinn_error::mapping'],
+         edits=[('crates/anemo/src/types/mod.rs', 'ConnectionError::TimedOut => DisconnectReason::TimedOut,', 'ConnectionError::TimedOut => DisconnectReason::Reset,')]),
+    dict(id='ap-add-wrapper-swapped-own', unit=U, what='wrapper passes the remote id as own id', expect=['ActivePeers::add::delegates_mixed'],
+         edits=[(CM, 'self.inner_mut().add(own_peer_id, new_connection)', 'self.inner_mut().add(&new_connection.peer_id(), new_connection)')]),
 ]
